@@ -39,6 +39,13 @@ def replay(pid, path):
         data = json.load(f)
     case = data["case"]
     entries = findings.load(pid)
+    # some failures need state left behind by earlier cases of the same process (module-level caches shared between Algebra
+    # objects): the replay file then carries the minimal list of earlier cases as a prelude
+    for pre in data.get("prelude") or []:
+        try:
+            mod.evaluate(pre)
+        except Exception:
+            pass
     try:
         mod.evaluate(case)
     except Violation as v:
@@ -122,6 +129,49 @@ def main(argv=None):
     return conclude(mod, pid, args.tier, seed, nshards, results, time.time() - t0)
 
 
+def _fresh_replay(pid, rec, path):
+    """Does the replay (with its prelude, if any) fail in a fresh interpreter?"""
+    with open(path, "w") as f:
+        json.dump(rec, f)
+    p = subprocess.run([sys.executable, "-m", "kv.runner", pid, "--replay", path], cwd=HERE, env=child_env(),
+                       capture_output=True, text=True, timeout=600)
+    return p.returncode == 1 or "KNOWN-FINDING" in p.stdout
+
+
+def _selfcontained(pid, rec, context, path):
+    """Make the replay file reproduce on its own: if the shrunk case alone passes in a fresh process, find a minimal prelude
+    among the cases evaluated before it in the failing shard (delta debugging, each probe in a fresh interpreter)."""
+    try:
+        if _fresh_replay(pid, rec, path):
+            return {"reproduces_in_fresh_process": True}
+        if not context:
+            return {"reproduces_in_fresh_process": False}
+        pre = list(context)
+        if not _fresh_replay(pid, dict(rec, prelude=pre), path):
+            return {"reproduces_in_fresh_process": False}
+        # ddmin-style reduction (bounded by wall time: every probe is a fresh interpreter evaluating the candidate prelude)
+        t_end = time.time() + 300
+        probes, n = 0, 2
+        while len(pre) >= 2 and time.time() < t_end:
+            chunk = max(1, len(pre) // n)
+            reduced = False
+            for i in range(0, len(pre), chunk):
+                cand = pre[:i] + pre[i + chunk:]
+                probes += 1
+                if cand and _fresh_replay(pid, dict(rec, prelude=cand), path):
+                    pre, n, reduced = cand, max(n - 1, 2), True
+                    break
+                if time.time() >= t_end:
+                    break
+            if not reduced:
+                if chunk == 1:
+                    break
+                n = min(len(pre), n * 2)
+        return {"reproduces_in_fresh_process": True, "prelude": pre}
+    except Exception as e:   # never let the convenience step hide the violation
+        return {"reproduces_in_fresh_process": None, "selfcontained_error": repr(e)}
+
+
 def _workdir():
     d = os.path.join(HERE, ".work")
     os.makedirs(d, exist_ok=True)
@@ -169,9 +219,14 @@ def conclude(mod, pid, tier, seed, nshards, results, wall):
         os.makedirs(rdir, exist_ok=True)
         for v in uniq:
             path = os.path.join(rdir, case_hash([v["case"], v["violation"]["clause"]]) + ".json")
+            rec = {"property": pid, "case": v["case"], "violation": v["violation"], "source": v["source"], "seed": seed, "tier": tier}
+            rec.update(_selfcontained(pid, rec, v.get("context") or [], path))
             with open(path, "w") as f:
-                json.dump({"property": pid, "case": v["case"], "violation": v["violation"], "source": v["source"],
-                           "seed": seed, "tier": tier}, f, indent=1)
+                json.dump(rec, f, indent=1)
+            if rec.get("prelude"):
+                print(f"note: this failure needs process state; the replay carries a prelude of {len(rec['prelude'])} earlier case(s)")
+            elif rec.get("reproduces_in_fresh_process") is False:
+                print("note: confirmed twice inside the shard process but not from the replay alone nor with the recorded context")
             print(f"violation: {v['violation']['clause']} [{v['violation']['op']}] {v['violation']['detail'][:600]}")
             print(f"  case: {json.dumps(v['case'])[:1200]}")
             vlines.append(f"VIOLATION property={pid} replay={path}")
